@@ -429,7 +429,18 @@ func cmdCheck(args []string) int {
 		}
 		if rep.Returns == 0 && len(rep.Unsupported) == 0 {
 			total++
-			report(rep.Key, "some path reaches a return (anti-vacuity)", "vacuity", "-", "unknown", "", "no path of the function reached a return under its preconditions", "", nil)
+			// paths that end at a clause which cannot be evaluated are not a vacuous contract: undecided
+			undec := false
+			for _, o := range rep.Obligations {
+				if o.Result != nil && o.Result.Status != "unsat" && isUndecidable(o.Kind, o.Name) {
+					undec = true
+				}
+			}
+			if undec {
+				noteUndecided(rep.Key, "some path reaches a return (every path ends at a contract clause that cannot be evaluated against the current source)")
+			} else {
+				report(rep.Key, "some path reaches a return (anti-vacuity)", "vacuity", "-", "unknown", "", "no path of the function reached a return under its preconditions", "", nil)
+			}
 		}
 	}
 	for _, q := range extra {
